@@ -218,7 +218,6 @@ def canon(r):
 # ------------------------------------------------------------------ the checks
 REG_CHILD = r"""
 import json, sys
-sys.path.insert(0, "/verif")
 import numpy, warnings
 from tools.props import C20
 import vector, awkward
@@ -306,7 +305,7 @@ def run(ctx):
 
     # registration: idempotent, touches only the registries — in a child process (it is irreversible)
     p = subprocess.run([sys.executable, "-c", REG_CHILD, str(ctx.seed)], capture_output=True, text=True, timeout=900,
-                       env=dict(os.environ, PYTHONPATH="/repo/src:/verif", PYTHONHASHSEED="0"))
+                       env=dict(os.environ, PYTHONPATH=(os.environ.get("VERIF_REPO") or "/repo") + "/src:" + os.path.dirname(os.path.dirname(os.path.dirname(os.path.abspath(__file__)))), PYTHONHASHSEED="0"))
     res = None
     for line in p.stdout.splitlines():
         if line.startswith("RESULT "):
@@ -406,7 +405,8 @@ def run(ctx):
     ctx.coverage["thread_partitions"] = part_names
     ctx.coverage["evaluations"] = n
     ctx.coverage["distinct_nontrivial"] = len(distinct)
-    t2 = json.load(open("/verif/build/t2.json")) if os.path.exists("/verif/build/t2.json") else {}
+    _t2p = os.path.join(os.path.dirname(os.path.dirname(os.path.dirname(os.path.abspath(__file__)))), "build", "t2.json")
+    t2 = json.load(open(_t2p)) if os.path.exists(_t2p) else {}
     ctx.coverage["t2"] = {k: t2.get(k) for k in ("dispatch_functions", "global_writers", "context_managers")}
     ctx.coverage["correspondences"] = {
         "observable process-wide state before == after every catalogued call (returning and raising, 5 prior settings)": {"ok": not any(f["site"].startswith("trace:") for f in ctx.failures)},
